@@ -57,6 +57,23 @@ func nxConfigs(part string, thorough bool) []*nxCfg {
 			{Name: "expiry", N: 3, MaxDev: pick(2, 3), Prefix: nxWarm, Script: []string{"w1", "r2", "K1", "K2", "K1", "K2", "K1", "K2", "K1", "K2", "K1", "K2", "K1", "K2", "K1", "K2"}, Drops: 4, LazyApplies: 1, Timeouts: 1, Horizon: 200},
 			{Name: "notify-commit", N: 3, NotifyCommit: true, MaxDev: pick(2, 3), Prefix: nxWarm, Script: []string{"W1", "W2", "R1", "S1"}, Drops: 2, Stops: 1, LazyApplies: 1, Timeouts: 1, Horizon: 200},
 		}
+	case "c17":
+		repN := func(items []string, n int) []string {
+			var out []string
+			for i := 0; i < n; i++ {
+				out = append(out, items...)
+			}
+			return out
+		}
+		quiesce := append(append([]string{}, repN([]string{"K1", "K2", "K3"}, 205)...), "W2", "K1", "K2", "K3", "R3", "K1", "K2", "K3", "H1", "W1", "H1")
+		return []*nxCfg{
+			{Name: "quiesce-then-requests", N: 3, Quiesce: true, MaxDev: 1, Prefix: nxWarm, Script: quiesce, Reorders: 1, LazyApplies: 1, Dups: 1, Horizon: 600, RequireComplete: true},
+			{Name: "quiesce-prevote-checkquorum", N: 3, Quiesce: true, PreVote: true, CheckQuorum: true, MaxDev: 1, Prefix: nxWarm, Script: quiesce, Reorders: 1, LazyApplies: 1, Horizon: 600, RequireComplete: true},
+			{Name: "quiesce-leader-failure-realtime", N: 3, Quiesce: true, RealTime: true, MaxDev: 1, Prefix: nxWarm,
+				Script:   append(append(append(append([]string{}, repN([]string{"K1", "K2", "K3"}, 205)...), "W2", "K1", "K2", "K3", "S1"), repN([]string{"K2", "K3"}, 45)...), "W2", "K2", "K3", "R3", "K2", "K3"),
+				Reorders: 1, Horizon: 4000, RequireComplete: true},
+			{Name: "restart-then-requests", N: 3, MaxDev: 1, Prefix: nxWarm, Script: []string{"W1", "C2", "H1", "W2", "R2", "C1", "T2", "H2", "W3", "R1", "H2"}, Reorders: 1, LazyApplies: 1, Horizon: 300, RequireComplete: true},
+		}
 	case "c01":
 		return []*nxCfg{
 			{Name: "w-r-leaderchange", N: 3, MaxDev: pick(2, 3), Prefix: nxWarm, Script: []string{"W1", "R2", "W2", "R1", "H1"}, Timeouts: 2, Crashes: 1, Drops: 3, Reorders: 1, LazyApplies: 1, Reads: 1, Writes: 1, Heartbeats: 1, Transfers: 1, Horizon: 150},
@@ -102,16 +119,23 @@ func TestVerifNodex(t *testing.T) {
 		return c
 	}
 	if os.Getenv("VERIF_DEBUG") != "" {
+		from := 0
+		fmt.Sscanf(os.Getenv("VERIF_DEBUG_FROM"), "%d", &from)
 		for _, cfg := range cfgs {
+			if f := os.Getenv("VERIF_DEBUG_CFG"); f != "" && f != cfg.Name {
+				continue
+			}
 			c := newC(cfg)
 			fmt.Println("=== ", cfg.Name, c.summary())
-			for i := 0; i < 80; i++ {
+			for i := 0; i < 2000; i++ {
 				e, ok := c.defaultEvent()
 				if !ok {
 					break
 				}
 				msg := c.Step(e)
-				fmt.Println(i, c.describe(e), c.summary(), msg)
+				if i >= from {
+					fmt.Println(i, c.describe(e), c.summary(), msg)
+				}
 				if msg != "" {
 					break
 				}
@@ -181,7 +205,7 @@ func (c *nxCluster) summary() string {
 			continue
 		}
 		vp := raft.VPeer{P: &h.node.p}
-		out += fmt.Sprintf("[%d role=%d t=%d c=%d last=%d app=%d] ", h.id, vp.Role(), vp.Term(), vp.Committed(), vp.LastIndex(), h.node.sm.GetLastApplied())
+		out += fmt.Sprintf("[%d role=%d t=%d c=%d last=%d app=%d q=%v] ", h.id, vp.Role(), vp.Term(), vp.Committed(), vp.LastIndex(), h.node.sm.GetLastApplied(), h.node.qs.quiesced())
 	}
 	out += fmt.Sprintf("inflight=%d ops=", len(c.msgs))
 	for _, op := range c.ops {
